@@ -45,7 +45,8 @@ M = [
  ("C12","first-result-wrong","compiler.go",'		return res[0].Interface(), nil\n	}\n\n	return nil, nil','		return res[len(res)-1].Interface(), nil\n	}\n\n	return nil, nil'),
  ("C14","set-unlocked","context.go",'	c.moot.Lock()\n	defer c.moot.Unlock()\n\n	c.data[key] = value','	c.data[key] = value'),
  ("C14","value-unlocked","context.go",'		c.moot.Lock()\n		v, ok := c.data[s]\n		c.moot.Unlock()','		v, ok := c.data[s]'),
- ("C15","stamp-after-token","lexer/lexer.go",'	// every token is stamped with the line on which it begins\n	line := l.curLine\n','	line := 0\n	defer func() { _ = line }()\n'),
+ ("C15","stamp-own-line","lexer/lexer.go",'	case l.ch != 0 || !l.atEOF():\n		line = l.tagLine\n	}','	case l.ch == 0 && l.atEOF():\n		line = l.curLine\n	}'),
+ ("C15","tagline-not-recorded","lexer/lexer.go",'	case l.ch == \'<\' && l.peekChar() == \'%\':\n		l.tagLine = line\n','	case l.ch == \'<\' && l.peekChar() == \'%\' && l.tagLine == 0:\n		l.tagLine = line\n'),
  ("C13","newtemplate-keeps-partial","template.go",'	program, err := parser.Parse(t.Input)\n	if err != nil {\n		return err\n	}\n\n	t.program = program\n	return nil','	program, err := parser.Parse(t.Input)\n	t.program = program\n	return err'),
  ("C18","comment-skips-one","parser/parser.go",'	for p.curToken.Type != token.E_END && p.curToken.Type != token.EOF {\n		p.nextToken()\n	}\n\n	return &ast.StringLiteral{TokenAble: ast.TokenAble{Token: p.curToken}, Value: ""}','	for p.curToken.Type != token.E_END && p.curToken.Type != token.EOF {\n		p.nextToken()\n	}\n	p.nextToken()\n\n	return &ast.StringLiteral{TokenAble: ast.TokenAble{Token: p.curToken}, Value: ""}'),
  ("C07","negate-if","compiler.go",'	if c.isTruthy(con) {\n		return c.evalBlockStatement(node.Block)','	if !c.isTruthy(con) {\n		return c.evalBlockStatement(node.Block)'),
